@@ -64,6 +64,68 @@ pub open spec fn one_scope_deeper(c0: Context, c: Context) -> bool { c.scopes().
 pub open spec fn n_params(pl: Option<synast::ParamList>) -> nat { match pl { Some(l) => l.sp_params().len(), None => 0 } }
 /// C09: the last symbol-table event is the declaration of `name` with a type satisfying `ty_ok`
 pub open spec fn last_bind(c: Context, name: Seq<char>) -> bool { c.trace().len() > 0 && c.trace().last() is Bind && c.trace().last()->Bind_0 == name }
+/// C06: every statement kind maps to the graph construct of the same meaning; statements that are
+/// evaluated rather than translated (include, annotations, the version line) yield no node; C03:
+/// statement kinds the analyser does not support yield the null statement (and are diagnosed)
+pub open spec fn stmt_kind_ok(s: synast::Stmt, r: Option<asg::Stmt>) -> bool {
+    match s {
+        synast::Stmt::IfStmt(_) => r is Some && r->Some_0 is If,
+        synast::Stmt::WhileStmt(_) => r is Some && r->Some_0 is While,
+        synast::Stmt::ForStmt(_) => r is Some && r->Some_0 is ForStmt,
+        synast::Stmt::SwitchCaseStmt(_) => r is Some && r->Some_0 is SwitchCaseStmt,
+        synast::Stmt::ClassicalDeclarationStatement(_) => r is Some && r->Some_0 is DeclareClassical,
+        synast::Stmt::IODeclarationStatement(d) => r is Some && (if d.sp_input_token() is Some { r->Some_0 is InputDeclaration } else { r->Some_0 is OutputDeclaration }),
+        synast::Stmt::QuantumDeclarationStatement(q) => r is Some && (if q.sp_name() is Some { r->Some_0 is DeclareQuantum } else { r->Some_0 is DeclareHardwareQubit }),
+        synast::Stmt::AssignmentStmt(_) => r is Some,
+        synast::Stmt::BreakStmt(_) => r == Some(asg::Stmt::Break),
+        synast::Stmt::ContinueStmt(_) => r == Some(asg::Stmt::Continue),
+        synast::Stmt::EndStmt(_) => r == Some(asg::Stmt::End),
+        synast::Stmt::Gate(_) => r is Some && r->Some_0 is GateDefinition,
+        synast::Stmt::Def(_) => r is Some && r->Some_0 is DefStmt,
+        synast::Stmt::Barrier(_) => r is Some && r->Some_0 is Barrier,
+        synast::Stmt::DelayStmt(_) => r is Some && r->Some_0 is Delay,
+        synast::Stmt::Reset(_) => r is Some && r->Some_0 is Reset,
+        synast::Stmt::PragmaStatement(_) => r is Some && r->Some_0 is Pragma,
+        synast::Stmt::AliasDeclarationStatement(_) => r is Some && r->Some_0 is Alias,
+        synast::Stmt::Include(_) => r is None,
+        synast::Stmt::VersionString(_) => r is None,
+        synast::Stmt::AnnotationStatement(_) => r is None,
+        synast::Stmt::ExprStmt(_) => true,
+        // not implemented in the graph
+        synast::Stmt::OldStyleDeclarationStatement(_) => r == Some(asg::Stmt::NullStmt),
+        synast::Stmt::DefCal(_) => r == Some(asg::Stmt::NullStmt),
+        synast::Stmt::Cal(_) => r == Some(asg::Stmt::NullStmt),
+        synast::Stmt::DefCalGrammar(_) => r == Some(asg::Stmt::NullStmt),
+        synast::Stmt::LetStmt(_) => r == Some(asg::Stmt::NullStmt),
+        synast::Stmt::Measure(_) => r == Some(asg::Stmt::NullStmt),
+        synast::Stmt::ExternStmt(_) => r == Some(asg::Stmt::NullStmt),
+    }
+}
+/// C06: gate modifiers keep their kind and their order
+pub open spec fn mod_same(m: synast::Modifier, g: asg::GateModifier) -> bool {
+    match m {
+        synast::Modifier::InvModifier(_) => g is Inv, synast::Modifier::PowModifier(_) => g is Pow,
+        synast::Modifier::CtrlModifier(_) => g is Ctrl, synast::Modifier::NegCtrlModifier(_) => g is NegCtrl,
+    }
+}
+pub open spec fn mods_same(ms: Seq<synast::Modifier>, gs: Seq<asg::GateModifier>) -> bool {
+    ms.len() == gs.len() && forall|i: int| 0 <= i < ms.len() ==> mod_same(#[trigger] ms[i], gs[i])
+}
+/// C06: an expression statement is a gate call / gphase call (with its modifiers) or a plain expression
+pub open spec fn expr_stmt_ok(e: Option<synast::Expr>, r: Option<asg::Stmt>) -> bool {
+    match e {
+        Some(synast::Expr::GateCallExpr(_)) => r is Some && r->Some_0 is GateCall && r->Some_0->GateCall_0.modifiers@.len() == 0,
+        Some(synast::Expr::ModifiedGateCallExpr(m)) => r is Some && (
+            if m.sp_gate_call_expr() is Some { r->Some_0 is GateCall && mods_same(m.sp_modifiers(), r->Some_0->GateCall_0.modifiers@) }
+            else { r->Some_0 is ModifiedGPhaseCall && mods_same(m.sp_modifiers(), r->Some_0->ModifiedGPhaseCall_0.modifiers@) }),
+        Some(synast::Expr::GPhaseCallExpr(_)) => r is Some && r->Some_0 is GPhaseCall,
+        _ => r is Some && r->Some_0 is ExprStmt,
+    }
+}
+/// C03: constructs the analyser does not support are reported
+pub open spec fn unsupported_stmt(s: synast::Stmt) -> bool {
+    s is OldStyleDeclarationStatement || s is DefCal || s is Cal || s is DefCalGrammar || s is LetStmt || s is Measure || s is ExternStmt || s is VersionString
+}
 pub open spec fn cond1(c: bool, k: SemanticErrorKind) -> Seq<SemanticErrorKind> { if c { seq![k] } else { Seq::empty() } }
 
 // ---- C06: operators map to the graph operator of the same meaning ------------------------------
